@@ -158,12 +158,12 @@ func seedString(r *prng.R) string {
 	case 1:
 		return r.Pick("seed", "abc", "0", "zzzzzzzzzzzzzz", "1y2p0ij32e8e7", "1y2p0ij32e8e8", "3w5e11264sgsf", "zzzzzzzzzzzzzzzzzzzzzzzz")
 	case 2:
-		return r.Pick("Seed", "a b", "a-b", "é", "A", "_", "a\n", "\x00", "1.5", "-1")
+		return r.Pick("Seed", "a b", "a-b", "é", "A", "_", "a\n", "\x00", "1.5", "-1", "dialogue{1}", "a|b", "x}", "~", "seed\x7f", "a`b", "[a]", "a@b", "a/b", "a:b", "\x80", "ab\xff")
 	default:
 		var b strings.Builder
 		alphabet := "0123456789abcdefghijklmnopqrstuvwxyz"
 		if r.Intn(4) == 0 {
-			alphabet += "ABC _-é!"
+			alphabet += "ABC _-é!{|}~\x7f`[@/:"
 		}
 		rs := []rune(alphabet)
 		for k := r.Intn(20); k > 0; k-- {
